@@ -171,6 +171,16 @@ def parse_unit(path):
             a, b = rest.split()
             d.renames.append((a, b))
             continue
+        if word == "id":
+            f.id_suffix = rest.strip()
+            continue
+        if word == "lift":
+            # lift after "<anchor>" [nth K] as "<signature>" [tail "<text>"]
+            m = re.match(r'^after\s+"((?:[^"\\]|\\.)*)"\s*(?:nth\s+(\d+)\s*)?as\s+"((?:[^"\\]|\\.)*)"\s*(?:tail\s+"((?:[^"\\]|\\.)*)")?\s*$', rest, re.S)
+            if not m:
+                raise ExtractError("%s:%d: bad lift directive" % (path, ln))
+            f.lift = (_unq(m.group(1)), int(m.group(2) or 1), _unq(m.group(3)), _unq(m.group(4) or ""))
+            continue
         if word == "twin":
             f.twin = rest
             continue
@@ -267,10 +277,44 @@ def _insert_hints(text, hints, where):
     return text
 
 
+def _lift_block(text, lift, log, where):
+    """R11: the `{ ... }` block that follows the anchor text becomes the body of a
+    plain fn with the declared signature (captured variables = its parameters).
+    Only the block is kept, verbatim; everything around it (spawn / closure /
+    stream plumbing) is dropped, and edits outside the block do not matter."""
+    anchor, nth, sigtext, tail = lift
+    toks = lex(text)
+    st = sig(toks)
+    pat = [t.text for t in sig(lex(anchor))]
+    hits = []
+    for i in range(len(st) - len(pat) + 1):
+        if [t.text for t in st[i:i + len(pat)]] == pat:
+            hits.append(i + len(pat) - 1)
+    if len(hits) < nth:
+        raise ExtractError("%s: lift anchor `%s` found %d time(s), need #%d (lost anchor)" % (where, anchor, len(hits), nth))
+    last = st[hits[nth - 1]]
+    # first `{` at or after the end of the anchor
+    k = toks.index(last)
+    if not (last.kind == PUNCT and last.text == "{"):
+        k += 1
+        while k < len(toks) and not (toks[k].kind == PUNCT and toks[k].text == "{"):
+            if toks[k].kind == PUNCT and toks[k].text in ("(", "["):
+                k = match_close(toks, k)
+            k += 1
+    if k >= len(toks):
+        raise ExtractError("%s: lift anchor `%s`: no block follows" % (where, anchor))
+    e = match_close(toks, k)
+    inner = untok(toks[k + 1:e])
+    log.add("R11", where, "block after `%s`" % anchor[:60], sigtext[:80])
+    return "%s {%s\n%s }" % (sigtext, inner, tail)
+
+
 def _weave_fn(text, fs, fid, dserves, log, where, meta, in_trait_impl):
     """text: one rewritten fn item (string).  Returns woven text."""
     if fs is None:
         fs = FnSpec(None)
+    if fs.lift:
+        text = _lift_block(text, fs.lift, log, where)
     if fs.rewrites:
         text = X.apply_pattern_rewrites(text, fs.rewrites, log, where)
     text = X.rewrite_slice_try_into(text, log, where)
@@ -503,6 +547,8 @@ def expand_extract(d, log, meta, unit_path):
             fs.name = norm(d.item).split(" ")[1]
             fs.rewrites = fs.rewrites or []
             fid = "%s::%s" % (short, fs.name)
+            if getattr(fs, "id_suffix", None):
+                fid += "#" + fs.id_suffix
             w = _weave_fn(text, fs, fid, d.serves, log, where, meta, False)
             return attrs + w + "\n" + meta.get("twin_texts", {}).pop(fid, "")
         return attrs + text
@@ -541,6 +587,8 @@ def expand_extract(d, log, meta, unit_path):
                 hn = norm(d.item)
                 fs.self_ty = hn.split(" for ", 1)[1] if " for " in hn else hn.split(" ", 1)[1]
             fid = "%s::%s::%s" % (short, norm(d.item), name)
+            if fs is not None and getattr(fs, "id_suffix", None):
+                fid += "#" + fs.id_suffix
             out_fns.append(_weave_fn(ftext, fs, fid, d.serves, log, where, meta, is_trait_impl))
         if header_text is None:
             hs = s
